@@ -118,6 +118,7 @@ type Exec struct {
 	harnessFn    map[*ssa.Function]bool
 	onceDone     map[*Value]bool
 	pools        map[*Value][]Value
+	syncMaps     map[*Value]*Map // sync.Map (model): contents per sync.Map value
 	unlockedCache int
 	curInstr     ssa.Instruction
 	stack        []*ssa.Function
